@@ -295,7 +295,9 @@ pub fn generate(r: &mut Rng, contradictory: bool) -> Generated {
                         }
                         Ev::Packed {
                             spans:     listed,
-                            is_struct: false,
+                            // some of the evidence says the fields form a
+                            // struct; one such piece makes the value a struct
+                            is_struct: c % 3 == 0 && r.chance(1, 2),
                         }
                     }
                 }
@@ -579,7 +581,14 @@ fn expected_kind(model: &Model, c: usize) -> String {
         Truth::Mapping { .. } => "Mapping".into(),
         Truth::DynArray { .. } => "DynArray".into(),
         Truth::FixedArray { length, .. } => format!("FixedArray[{length}]"),
-        Truth::Packed { spans } => format!("Packed[{}]", spans.iter().map(|(_, o, w)| format!("{o}+{w}")).collect::<Vec<_>>().join(",")),
+        Truth::Packed { spans } => {
+            let is_struct = model.emitted[c].iter().any(|e| matches!(e, Ev::Packed { is_struct: true, .. }));
+            format!(
+                "{}[{}]",
+                if is_struct { "Struct" } else { "Packed" },
+                spans.iter().map(|(_, o, w)| format!("{o}+{w}")).collect::<Vec<_>>().join(",")
+            )
+        }
     }
 }
 
